@@ -23,6 +23,7 @@ pub struct Violation {
 
 #[derive(Default)]
 pub struct Local {
+    pub sig_counts: BTreeMap<String, u64>,
     pub evals: u64,
     pub nontrivial: u64,
     pub counters: BTreeMap<&'static str, u64>,
@@ -37,6 +38,7 @@ impl Local {
     }
     pub fn violation(&mut self, v: Violation) {
         self.nviol += 1;
+        *self.sig_counts.entry(v.sig.clone()).or_insert(0) += 1;
         // keep the simplest few per signature
         let same: Vec<usize> = self
             .violations
@@ -56,6 +58,7 @@ impl Local {
 }
 
 pub struct Totals {
+    pub sig_counts: BTreeMap<String, u64>,
     pub evals: u64,
     pub nontrivial: u64,
     pub counters: BTreeMap<&'static str, u64>,
@@ -101,6 +104,7 @@ where
         }
     });
     let mut tot = Totals {
+        sig_counts: BTreeMap::new(),
         evals: 0,
         nontrivial: 0,
         counters: BTreeMap::new(),
@@ -113,6 +117,9 @@ where
         tot.evals += l.evals;
         tot.nontrivial += l.nontrivial;
         tot.nviol += l.nviol;
+        for (k, v) in l.sig_counts {
+            *tot.sig_counts.entry(k).or_insert(0) += v;
+        }
         for (k, v) in l.counters {
             *tot.counters.entry(k).or_insert(0) += v;
         }
@@ -131,6 +138,9 @@ impl Totals {
         self.evals += other.evals;
         self.nontrivial += other.nontrivial;
         self.nviol += other.nviol;
+        for (k, v) in other.sig_counts {
+            *self.sig_counts.entry(k).or_insert(0) += v;
+        }
         for (k, v) in other.counters {
             *self.counters.entry(k).or_insert(0) += v;
         }
@@ -143,6 +153,7 @@ impl Totals {
     }
     pub fn empty() -> Totals {
         Totals {
+            sig_counts: BTreeMap::new(),
             evals: 0,
             nontrivial: 0,
             counters: BTreeMap::new(),
@@ -266,6 +277,7 @@ pub fn finish(rep: Report, tot: Totals) -> i32 {
         "exhaustive": rep.exhaustive,
         "counters": counters,
         "violations_total": tot.nviol,
+        "violation_classes": tot.sig_counts,
         "known_findings_hit": known_lines,
     });
     if let (Some(c), Some(e)) = (coverage.as_object_mut(), rep.extra.as_object()) {
@@ -289,6 +301,9 @@ pub fn finish(rep: Report, tot: Totals) -> i32 {
         serde_json::to_string_pretty(&ev).unwrap(),
     )
     .expect("cannot write evidence");
+    for (k, v) in &tot.sig_counts {
+        println!("  violation class {} x{}", k, v);
+    }
     println!(
         "{} {}: evaluations={} nontrivial={} violations={} wall={:.1}s {:?}",
         rep.property, rep.tier, tot.evals, tot.nontrivial, tot.nviol, tot.wall_s, tot.counters
